@@ -34,6 +34,7 @@ import Distill.Model.Candidates
 import Distill.Model.LinkScore
 import Distill.Model.PageInfo
 import Distill.Model.Scan
+import Distill.Model.Derive
 namespace Distill.Slices
 open Distill Distill.Proto
 
@@ -267,7 +268,9 @@ def atomsP : P CAtoms := do
 def convertSlice : P String := do
   let sk ← bool
   let t ← node
-  let A ← atomsP
+  let A0 ← atomsP
+  -- display, visibility, unlikely and maybe are computed by the model from the attributes in the tree
+  let A := deriveAtoms t A0
   let evs := convert { skipUnlikely := sk } A [] false t
   let td := textData t
   let nd := fun i => match td.find? (fun p => p.1 == i) with | some p => p.2 | none => ""
@@ -393,7 +396,8 @@ def stripSlice : P String := do
 /-- `outputnodes tree atoms` → text ids and element tags `GetOutputNodes` collects -/
 def outputnodesSlice : P String := do
   let t ← node
-  let A ← atomsP
+  let A1 ← atomsP
+  let A := deriveAtoms t A1
   pure s!"{",".intercalate ((outputTextIds A t).map toString)} | {",".intercalate (outputTags A t)}"
 
 /-- `absurl tree n (value abs absSet)*` → attributes of every element after MakeAllLinksAbsolute;
@@ -556,7 +560,8 @@ def filtersSlice : P String := do
 Go code would dereference nil -/
 def textrenderSlice : P String := do
   let t ← node
-  let A ← atomsP
+  let A1 ← atomsP
+  let A := deriveAtoms t A1
   let n ← nat
   let ids ← many n nat
   let m ← nat
@@ -654,7 +659,8 @@ def iereaderSlice : P String := do
 makes of the element: kind, the image element and the caption, serialised -/
 def imageextractSlice : P String := do
   let t ← node
-  let A ← atomsP
+  let A1 ← atomsP
+  let A := deriveAtoms t A1
   let m ← nat
   let tbl ← many m (do let v ← str; let a ← bool; let b ← bool; let c ← bool; pure (v, a, b, c))
   let look := fun (v : String) => tbl.find? (fun e => e.1 == v)
